@@ -57,10 +57,13 @@ theorem C10_failure_handling (cf : Conf) (now : Nat) (fault : Option Fault) (fue
   subst hrender
   refine ⟨?_, ?_, ?_⟩
   · intro h; subst h
+    simp only [isCrash, Bool.false_eq_true, if_false]
     cases cmd <;> first | rfl | exact absurd rfl (hq _ _)
   · intro h; subst h
+    simp only [isCrash, Bool.false_eq_true, if_false]
     cases cmd <;> first | rfl | exact absurd rfl (hq _ _)
   · intro e h he; subst h
+    simp only [isCrash, Bool.false_eq_true, if_false]
     cases cmd <;> first | (simp [he]) | exact absurd rfl (hq _ _)
 
 /-- A panic underneath (e.g. the nil dereference of a handler whose backend connection broke
